@@ -370,6 +370,27 @@ def exec (s : St) (w : List String) : St × J :=
         (match res with
           | (h, none) => (s.set (tokN dst) h, out)
           | (_, some e) => (s, jerr e)))
+  | "textrtn" :: kind :: src :: dst :: delim :: k :: rest =>
+    -- any node type: the table gives str(node) for every node code (code, length, char codes)
+    (match s.get (tokN src) with
+      | none => (s, .str "E:KeyError")
+      | some g =>
+        let d : Char := match tokN delim with | 0 => ' ' | 1 => ',' | 2 => '\t' | _ => ';'
+        let rec table : Nat → List String → List (Node × List Char)
+          | 0, _ => []
+          | m + 1, c :: n :: r => (tokN c, charsOf (r.take (tokN n))) :: table m (r.drop (tokN n))
+          | _, _ => []
+        let tab := table (tokN k) rest
+        let name : Node → List Char := fun n => ((tab.find? (fun e => e.1 == n)).map (·.2)).getD (natDigits n)
+        let dec : List Char → Option Node := fun cs => (tab.find? (fun e => e.2 == cs)).map (·.1)
+        let lines := if kind == "1" then g.interactionLinesWith name d else g.snapshotLinesWith name d
+        let res := if kind == "1" then parseInteractionsTextWith dec g.directed '#' (some d) lines
+                   else parseSnapshotsTextWith dec g.directed '#' (some d) lines
+        let out := J.obj [("lines", .arr ((sortByKey (fun (l : List Char) => l.map (fun c => (c.toNat : Int))) lines).map
+                      (fun l => J.arr (l.map (fun c => J.num (c.toNat : Int))))))]
+        (match res with
+          | (h, none) => (s.set (tokN dst) h, out)
+          | (_, some e) => (s, jerr e)))
   | ["filert", kind, src, dst, _, _, _] =>
     (match s.get (tokN src) with
       | none => (s, .str "E:KeyError")
